@@ -9,11 +9,19 @@ may hand control to another live worker.  Calls into C (NumPy) are atomic steps.
 Schedule forms:
   {"kind": "preempt", "prio": [...], "points": [[global_step, choice], ...]}
   {"kind": "random", "prio": [...], "prob_per_mille": p, "seed": s}
+  {"kind": "stores", "prio": [...], "store_per_mille": q, "prob_per_mille": p, "seed": s}
+      as "random", but the switch probability is q right before an opcode that writes to possibly shared state
+      (STORE_ATTR / STORE_SUBSCR / STORE_GLOBAL / STORE_DEREF / DELETE_*) and p elsewhere: races need a switch
+      between two writes, so the writes are where the schedule should be dense.
 """
+import dis
 import os
 import random
 import sys
 import threading
+
+WRITES = frozenset(dis.opmap[n] for n in ("STORE_ATTR", "STORE_SUBSCR", "STORE_GLOBAL", "STORE_DEREF", "DELETE_ATTR",
+                                          "DELETE_SUBSCR", "DELETE_GLOBAL", "STORE_SLICE") if n in dis.opmap)
 
 
 class DetPool(object):
@@ -28,9 +36,13 @@ class DetPool(object):
         self.closed = False
         self.points = {}
         self.rng = None
-        if schedule.get("kind") == "random":
+        self.store_prob = None
+        self.store_steps = 0
+        if schedule.get("kind") in ("random", "stores"):
             self.rng = random.Random(schedule.get("seed", 0))
             self.prob = schedule.get("prob_per_mille", 5) / 1000.0
+            if schedule.get("kind") == "stores":
+                self.store_prob = schedule.get("store_per_mille", 300) / 1000.0
         else:
             for step, choice in schedule.get("points", []):
                 self.points[int(step)] = int(choice)
@@ -97,10 +109,17 @@ class DetPool(object):
             while self.current != w:
                 self.cv.wait()
 
-    def _decide(self, w):
+    def _decide(self, w, frame=None):
         self.steps += 1
         if self.rng is not None:
-            if self.rng.random() >= self.prob:
+            prob = self.prob
+            if self.store_prob is not None and frame is not None:
+                code = frame.f_code.co_code
+                i = frame.f_lasti
+                if 0 <= i < len(code) and code[i] in WRITES:
+                    prob = self.store_prob
+                    self.store_steps += 1
+            if self.rng.random() >= prob:
                 return
             choice = self.rng.randrange(1 << 16)
         else:
@@ -116,7 +135,7 @@ class DetPool(object):
 
         def local(frame, event, arg):
             if event == "opcode":
-                pool._decide(w)
+                pool._decide(w, frame)
             return local
 
         def glob(frame, event, arg):
